@@ -50,6 +50,12 @@ pub struct SockState {
     buffered: bool,
     pending: Vec<u8>,
     flushes: u32,
+    /// The socket reports `is_write_vectored()` and takes a vectored write as
+    /// one write of the concatenated slices (so it may stop inside any slice).
+    vectored: bool,
+    vectored_writes: u32,
+    /// Output limit of this socket; 0 stands for `OUTPUT_HARD_LIMIT`.
+    limit: usize,
 }
 
 #[derive(Clone)]
@@ -76,6 +82,20 @@ impl ScriptedSocket {
     /// to the peer only when it is flushed.
     pub fn new_buffering(credit: Option<usize>) -> Self {
         ScriptedSocket(Arc::new(Mutex::new(SockState { credit, buffered: true, ..Default::default() })))
+    }
+
+    /// Any combination of the socket freedoms, with its own output limit.
+    pub fn new_mode(credit: Option<usize>, buffered: bool, vectored: bool, limit: usize) -> Self {
+        ScriptedSocket(Arc::new(Mutex::new(SockState { credit, buffered, vectored, limit, ..Default::default() })))
+    }
+
+    pub fn vectored_writes(&self) -> u32 {
+        self.with(|s| s.vectored_writes)
+    }
+
+    /// The end to hand to a server.
+    pub fn server_end(&self) -> ServerEnd {
+        ServerEnd(self.clone())
     }
 
     /// Bytes the server has written but not flushed.
@@ -214,37 +234,69 @@ impl AsyncRead for ServerEnd {
     }
 }
 
+impl SockState {
+    /// One write call offering `total` bytes; `copy(n)` hands over the first n of them.
+    fn write_some(&mut self, cx: &mut Context<'_>, total: usize, copy: impl FnOnce(&mut Vec<u8>, usize)) -> Poll<io::Result<usize>> {
+        self.activity += 1;
+        self.polled = true;
+        if total == 0 {
+            return Poll::Ready(Ok(0));
+        }
+        let limit = if self.limit == 0 { OUTPUT_HARD_LIMIT } else { self.limit };
+        if self.out.len() + self.pending.len() + total > limit {
+            self.overflow = true;
+            return Poll::Ready(Err(io::Error::new(io::ErrorKind::BrokenPipe, "output limit of the scripted socket")));
+        }
+        let n = match self.credit {
+            None => total,
+            Some(0) => {
+                self.parked_write = true;
+                self.write_waker = Some(cx.waker().clone());
+                return Poll::Pending;
+            }
+            Some(c) => c.min(total),
+        };
+        if let Some(c) = self.credit.as_mut() {
+            *c -= n;
+        }
+        if self.buffered {
+            copy(&mut self.pending, n);
+        } else {
+            copy(&mut self.out, n);
+        }
+        self.parked_write = false;
+        Poll::Ready(Ok(n))
+    }
+}
+
 impl AsyncWrite for ServerEnd {
     fn poll_write(self: Pin<&mut Self>, cx: &mut Context<'_>, data: &[u8]) -> Poll<io::Result<usize>> {
+        self.0.with(|s| s.write_some(cx, data.len(), |dst, n| dst.extend_from_slice(&data[..n])))
+    }
+
+    fn is_write_vectored(&self) -> bool {
+        self.0.with(|s| s.vectored)
+    }
+
+    fn poll_write_vectored(self: Pin<&mut Self>, cx: &mut Context<'_>, bufs: &[io::IoSlice<'_>]) -> Poll<io::Result<usize>> {
         self.0.with(|s| {
-            s.activity += 1;
-            s.polled = true;
-            if data.is_empty() {
-                return Poll::Ready(Ok(0));
+            if !s.vectored {
+                // what the trait does by default: the first non-empty slice only
+                let first = bufs.iter().find(|b| !b.is_empty()).map(|b| &**b).unwrap_or(&[]);
+                return s.write_some(cx, first.len(), |dst, n| dst.extend_from_slice(&first[..n]));
             }
-            if s.out.len() + s.pending.len() + data.len() > OUTPUT_HARD_LIMIT {
-                s.overflow = true;
-                return Poll::Ready(Err(io::Error::new(io::ErrorKind::BrokenPipe, "output limit of the scripted socket")));
-            }
-            let n = match s.credit {
-                None => data.len(),
-                Some(0) => {
-                    s.parked_write = true;
-                    s.write_waker = Some(cx.waker().clone());
-                    return Poll::Pending;
+            s.vectored_writes += 1;
+            let total: usize = bufs.iter().map(|b| b.len()).sum();
+            s.write_some(cx, total, |dst, mut n| {
+                for b in bufs {
+                    let k = n.min(b.len());
+                    dst.extend_from_slice(&b[..k]);
+                    n -= k;
+                    if n == 0 {
+                        break;
+                    }
                 }
-                Some(c) => c.min(data.len()),
-            };
-            if let Some(c) = s.credit.as_mut() {
-                *c -= n;
-            }
-            if s.buffered {
-                s.pending.extend_from_slice(&data[..n]);
-            } else {
-                s.out.extend_from_slice(&data[..n]);
-            }
-            s.parked_write = false;
-            Poll::Ready(Ok(n))
+            })
         })
     }
 
@@ -372,6 +424,9 @@ pub enum Step {
     /// Only as the first step: the connection gets the buffering socket
     /// (bytes reach the client when the server flushes, not when it writes).
     Buffering,
+    /// Only among the leading steps: the connection's socket reports
+    /// `is_write_vectored()` and accepts vectored writes as one write.
+    Vectored,
 }
 
 #[derive(Clone, Debug)]
@@ -389,8 +444,16 @@ impl Schedule {
         Schedule { credit: None, settle_first: true, steps: vec![] }
     }
 
+    fn leading(&self, what: Step) -> bool {
+        self.steps.iter().take_while(|s| matches!(s, Step::Buffering | Step::Vectored)).any(|s| *s == what)
+    }
+
     pub fn buffering(&self) -> bool {
-        self.steps.first() == Some(&Step::Buffering)
+        self.leading(Step::Buffering)
+    }
+
+    pub fn vectored(&self) -> bool {
+        self.leading(Step::Vectored)
     }
 
     pub fn notifies(&self) -> usize {
@@ -446,6 +509,7 @@ impl Schedule {
                 Step::Unlimit => s.push('U'),
                 Step::DropSender => s.push('X'),
                 Step::Buffering => s.push_str("buffering-socket"),
+                Step::Vectored => s.push_str("vectored-socket"),
             }
         }
         s.push_str(" [rest S U S close S]");
@@ -535,6 +599,31 @@ const SETTLE_BOUND: usize = 20_000;
 /// Yields until the server made no socket call during two consecutive turns
 /// of the scheduler and is parked (or gone). Returns false if the bound was
 /// hit first.
+/// The same for several sockets served by one server.
+pub async fn settle_all(socks: &[ScriptedSocket]) -> bool {
+    let act = |socks: &[ScriptedSocket]| -> u64 { socks.iter().map(|s| s.activity()).sum() };
+    let mut last = act(socks);
+    let mut calm = 0;
+    for _ in 0..SETTLE_BOUND {
+        tokio::task::yield_now().await;
+        let now = act(socks);
+        if now == last {
+            calm += 1;
+            let parked = socks.iter().all(|sock| {
+                let s = sock.snapshot();
+                !s.polled || s.dropped || s.parked_write || (s.parked_read_empty && s.pending_input == 0)
+            });
+            if (calm >= 3 && parked) || calm >= 10 {
+                return true;
+            }
+        } else {
+            calm = 0;
+            last = now;
+        }
+    }
+    false
+}
+
 async fn settle(sock: &ScriptedSocket) -> bool {
     let mut last = sock.activity();
     let mut calm = 0;
@@ -591,7 +680,7 @@ fn write_place(out: &[u8]) -> Place {
     }
 }
 
-fn locate(sock: &ScriptedSocket, labels: &[ReadLabel]) -> NotifyPos {
+pub fn locate(sock: &ScriptedSocket, labels: &[ReadLabel]) -> NotifyPos {
     let s = sock.snapshot();
     let lab = labels[s.consumed.min(labels.len() - 1)];
     let same_tick = s.pending_input > 0 && !s.parked_write && !s.dropped;
@@ -621,7 +710,7 @@ pub fn run_schedule(
     schedule: &Schedule,
 ) -> RunOutcome {
     crate::core::take_last_panic();
-    let sock = if schedule.buffering() { ScriptedSocket::new_buffering(schedule.credit) } else { ScriptedSocket::new(schedule.credit) };
+    let sock = ScriptedSocket::new_mode(schedule.credit, schedule.buffering(), schedule.vectored(), 0);
     let mut owed = 0usize;
     let mut unflushed: Option<(usize, Vec<u8>)> = None;
     let (positions, bound_hit) = rt.block_on(async {
@@ -683,7 +772,7 @@ pub fn run_schedule(
                     }
                 }
                 Step::DropSender => sender = None,
-                Step::Buffering => settled = was_settled,
+                Step::Buffering | Step::Vectored => settled = was_settled,
                 Step::Settle => {
                     bound_hit |= !settle(&sock).await;
                     idle_check(&sock);
